@@ -490,7 +490,22 @@ def _binding_shapes(fn: ast.FunctionDef):
     return out
 
 
-def _rename_locals(fn: ast.FunctionDef, template) -> None:
+def _role_score(fn: ast.FunctionDef, ref_exprs: set, t: str, x: str) -> int:
+    """How many expressions of fn that mention local t read as an expression of the reference once t is called x."""
+    import copy as _copy
+    n = 0
+    for h in ast.walk(fn):
+        if isinstance(h, (ast.Call, ast.BinOp, ast.Compare, ast.Subscript, ast.Attribute, ast.AugAssign, ast.Return)) and any(isinstance(y, ast.Name) and y.id == t for y in ast.walk(h)):
+            c = _copy.deepcopy(h)
+            for y in ast.walk(c):
+                if isinstance(y, ast.Name) and y.id == t:
+                    y.id = x
+            if ast.unparse(c) in ref_exprs and ast.unparse(h) not in ref_exprs:
+                n += 1
+    return n
+
+
+def _rename_locals(fn: ast.FunctionDef, template, ref_fn=None) -> None:
     """Alpha-rename locals of fn to the names recorded in `template` (list of (shape, names) of the reference tree) when
     their binding statements line up; semantics-preserving, refuses on any conflict."""
     import difflib
@@ -500,6 +515,7 @@ def _rename_locals(fn: ast.FunctionDef, template) -> None:
     a = [s for s, _ in template]
     b = [s for s, _ in cur]
     mapping = {}
+    cands = []
     known_names = {x for _s, ns in template for x in ns}
     for blk in difflib.SequenceMatcher(None, a, b, autojunk=False).get_matching_blocks():
         for k in range(blk.size):
@@ -510,9 +526,7 @@ def _rename_locals(fn: ast.FunctionDef, template) -> None:
                 if y in known_names:
                     continue                     # a name the reference tree uses keeps its meaning (statements may just have moved)
                 if y != x:
-                    if mapping.get(y, x) != x:
-                        return                       # inconsistent: leave the function alone
-                    mapping[y] = x
+                    cands.append((y, x))
     # bindings the order-preserving match left over: a shape that occurs once among the left-overs on either side pairs up
     m_a, m_b = set(), set()
     for blk in difflib.SequenceMatcher(None, a, b, autojunk=False).get_matching_blocks():
@@ -530,11 +544,32 @@ def _rename_locals(fn: ast.FunctionDef, template) -> None:
                 for x, y in zip(tn, cn):
                     if y in known_names or y == x:
                         continue
-                    if x in mapping.values() or y in mapping:
-                        continue
                     if any(x in ns for _s, ns in cur):
                         continue                # the reference name is bound elsewhere in the current function already
-                    mapping[y] = x
+                    cands.append((y, x))
+    # several candidates for one name (or one reference name wanted by several locals): the one whose uses read as the
+    # reference's decides; a tie leaves the names alone
+    ref_exprs = set()
+    if ref_fn is not None and ref_fn.get("src"):
+        try:
+            rtree = ast.parse(ref_fn["src"])
+            ref_exprs = {ast.unparse(n) for n in ast.walk(rtree) if isinstance(n, (ast.Call, ast.BinOp, ast.Compare, ast.Subscript, ast.Attribute, ast.AugAssign, ast.Return))}
+        except SyntaxError:
+            ref_exprs = set()
+    pairs = sorted(set(cands))
+    by_y, by_x = {}, {}
+    for y, x in pairs:
+        by_y.setdefault(y, set()).add(x)
+        by_x.setdefault(x, set()).add(y)
+    score = {(y, x): (_role_score(fn, ref_exprs, y, x) if ref_exprs else 0) for y, x in pairs}
+    for y, x in pairs:
+        rivals = [(y2, x2) for (y2, x2) in pairs if (y2 == y or x2 == x) and (y2, x2) != (y, x)]
+        if ref_exprs and score[(y, x)] == 0:
+            continue                    # a matching binding shape alone (`_ = _`, `_ = len(_)`) is not evidence enough
+        if not rivals:
+            mapping[y] = x
+        elif all(score[(y, x)] > score[r] for r in rivals):
+            mapping[y] = x
     if not mapping:
         return
     params = {p.arg for p in fn.args.posonlyargs + fn.args.args + fn.args.kwonlyargs}
@@ -1785,7 +1820,8 @@ def _inline_fresh_temps(fn: ast.FunctionDef, known: set, multi: bool = True) -> 
                         # nothing between the alias and one of its uses may re-bind the chain behind our back (see _harmful_calls);
                         # a call made *through* the alias is the call the original made on the chain itself
                         idx_last = max(k for k in range(i + 1, len(blk)) if any(u is y for u in loads[t] for y in ast.walk(blk[k])))
-                        if _harm_before_use(blk[i + 1:idx_last + 1], loads[t], attr_names if isinstance(root, ast.Name) and root.id == "self" else None):
+                        if not (attr_names and not sub_bases and attr_names <= _INIT_ONLY_ATTRS) and \
+                                _harm_before_use(blk[i + 1:idx_last + 1], loads[t], attr_names if isinstance(root, ast.Name) and root.id == "self" else None):
                             clash = True
                     if not clash and later:
                         for u in loads[t]:
@@ -1981,12 +2017,13 @@ def canonicalise(tree: ast.Module, rel: str = "") -> ast.Module:
 
                     def rename():
                         if q in names:
-                            _rename_locals(n, [(s, list(ns)) for s, ns in names[q]])
+                            _rename_locals(n, [(s, list(ns)) for s, ns in names[q]], rf)
 
                     def shape():
                         if rf is not None:
                             from . import canon
                             canon.normalise_expression_forms(n, rf)
+                            canon.thread_none_flag(n, known)
                             canon.sink_tail_into_branches(n, rf)
                             canon.sink_use_into_branches(n, rf, known)
                             canon.enumerate_to_counter(n, rf, known)
